@@ -459,29 +459,34 @@ def status_usage(call):
     return "expr:" + k
 
 
+def _reads(node, var):
+    """Does AST `node` read variable / access path `var`?"""
+    for x in node.walk():
+        if x.kind == "DeclRefExpr" and x.ref == var:
+            return True
+        if x.kind == "MemberExpr" and "->" in var and x.path() == var:
+            return True
+    return False
+
+
 def var_tested_after(fn, g, node_id, var):
-    """Is `var` read in a condition/return on every path after CFG node node_id before being overwritten?
-    Returns (ok, offending description)."""
-    # nodes that read var in a cond or return
+    """Is `var` (a variable name or an access path such as obj->field) read in a condition/return on every
+    path after CFG node node_id before being overwritten?  Returns (ok, offending path description)."""
     readers = set()
     writers = set()
     for n in g.nodes:
         if n.ast is None or n.id == node_id:
             continue
-        reads = any(x.kind == "DeclRefExpr" and x.ref == var for x in n.ast.walk())
-        if n.kind in ("cond", "return") and reads:
+        if n.kind in ("cond", "return") and _reads(n.ast, var):
             readers.add(n.id)
             continue
         for path, st, rhs, kind in stores(n.ast):
             if path == var:
-                # an assignment whose rhs reads var counts as a reader-propagation, not a kill
-                if rhs is not None and any(x.kind == "DeclRefExpr" and x.ref == var for x in rhs.walk()):
+                # an assignment whose rhs reads var propagates the value, it does not kill it
+                if rhs is not None and _reads(rhs, var):
                     readers.add(n.id)
                 else:
                     writers.add(n.id)
-        if n.kind == "stmt" and n.ast.kind == "DeclStmt":
-            pass
-    # path from node to a writer or exit avoiding readers => status lost
     bad_targets = writers | {g.exit.id}
     reach = g.reach([node_id], avoid=readers)
     for b in bad_targets:
